@@ -1649,6 +1649,8 @@ func (w *World) Getwd() (string, syscall.Errno) {
 
 // DoExit records process exit and unwinds.
 func (w *World) DoExit(code int) {
+	// what the parent of a real process sees: the low eight bits
+	code &= 0xff
 	op, _, ok := w.begin("exit", "")
 	op.N = code
 	if ok {
